@@ -240,3 +240,12 @@ Fixpoint flist (m : mem) (head : Z) (l : list Z) : Prop :=
 
 Definition all_chunks (c : pcfg) : list Z :=
   map (fun i => chunk_addr c (Z.of_nat i)) (seq 0 (Z.to_nat (p_count c))).
+
+(* the stack's documented precondition: blocks are released newest first (dealloc and realloc-to-0
+   of the newest block only) *)
+Definition sop_lifo (o : sop) : Prop :=
+  match o with
+  | SDealloc i => i = O
+  | SRealloc i n => n = 0 -> i = O
+  | _ => True
+  end.
